@@ -109,11 +109,11 @@ static struct fdinfo g_fds[MAXFD];
 
 enum kind {
   K_OPENR, K_OPENW, K_OPENDIR, K_READ, K_WRITE, K_READDIR, K_SHORT_READ, K_SHORT_WRITE,
-  K_EINTR_READ, K_EINTR_WRITE, K_EINTR_OPEN, K_CLOCKJUMP, K_CRASH, K_RENAME, K_STATSIZE, K_TTY, K_NKINDS
+  K_EINTR_READ, K_EINTR_WRITE, K_EINTR_OPEN, K_CLOCKJUMP, K_CRASH, K_RENAME, K_STATSIZE, K_TTY, K_DEVNO, K_NKINDS
 };
 static const char *kind_names[] = {"openr", "openw", "opendir", "read", "write", "readdir",
                                    "short_read", "short_write", "eintr_read", "eintr_write",
-                                   "eintr_open", "clockjump", "crash", "rename", "statsize", "tty"};
+                                   "eintr_open", "clockjump", "crash", "rename", "statsize", "tty", "devno"};
 struct rule {
   int kind;
   char sel[RELMAX];
@@ -208,7 +208,7 @@ static void parse_plan(const char *plan) {
     if (when[0] == '+') { r->by_offset = 1; r->when = atol(when + 1); }
     else r->when = atol(when);
     switch (r->kind) {
-      case K_SHORT_READ: case K_SHORT_WRITE: case K_CLOCKJUMP: case K_CRASH: case K_STATSIZE: case K_TTY:
+      case K_SHORT_READ: case K_SHORT_WRITE: case K_CLOCKJUMP: case K_CRASH: case K_STATSIZE: case K_TTY: case K_DEVNO:
         r->arg = atol(arg); break;
       case K_EINTR_READ: case K_EINTR_WRITE: case K_EINTR_OPEN:
         r->arg = EINTR; break;
@@ -730,7 +730,7 @@ int statx(int dirfd, const char *path, int flags, unsigned int mask, struct stat
   vsim_init();
   if (!real_statx) real_statx = dlsym(RTLD_NEXT, "statx");
   int r = real_statx ? real_statx(dirfd, path, flags, mask, buf) : (int)real_syscall(SYS_statx, dirfd, path, flags, mask, buf);
-  if (r != 0 || !g_world || !buf || !S_ISREG(buf->stx_mode)) return r;
+  if (r != 0 || !g_world || !buf) return r;
   int e = errno;
   char rel[RELMAX];
   int have = 0;
@@ -741,7 +741,22 @@ int statx(int dirfd, const char *path, int flags, unsigned int mask, struct stat
   }
   if (have) {
     pthread_mutex_lock(&g_lock);
+    /* `devno:<dir>:0:<n>`: everything at or below <dir> lives on another file system (a mount
+     * point below the project directory: a volume, a network share, a tmpfs): its device number is
+     * reported n higher. Which files are formatted must not depend on it. */
     for (int i = 0; i < g_nrules; i++) {
+      struct rule *ru = &g_rules[i];
+      if (ru->kind != K_DEVNO) continue;
+      size_t sl = strlen(ru->sel);
+      if (!strcmp(ru->sel, rel) || (!strncmp(ru->sel, rel, sl) && rel[sl] == '/')) {
+        event_begin("devno", rel);
+        ru->fired = 1;
+        trace_line("devno", rel, (long)buf->stx_dev_minor, ru->arg, 0, i);
+        buf->stx_dev_minor += (unsigned)ru->arg;
+        break;
+      }
+    }
+    for (int i = 0; i < g_nrules && S_ISREG(buf->stx_mode); i++) {
       struct rule *ru = &g_rules[i];
       if (ru->kind != K_STATSIZE || !sel_match(ru, rel)) continue;
       event_begin("statsize", rel);
